@@ -682,16 +682,16 @@ def m_init_traps():
 
 
 def directed(rng, thorough=False):
-    npairs = 30 if thorough else 5
-    ntraps = 30 if thorough else 3
+    npairs = 20 if thorough else 5
+    ntraps = 12 if thorough else 3
     out = []
     for t in (I32, I64):
         for grp in "abc":
             out += m_binops(t, grp, rng, npairs, ntraps)
         out += m_cmp(t, rng, npairs if thorough else 6)
         out += m_unary(t, rng, npairs)
-        out += m_loads(t, rng, 60 if thorough else 4)
-        out += m_stores(t, rng, 30 if thorough else 2)
+        out += m_loads(t, rng, 40 if thorough else 4)
+        out += m_stores(t, rng, 16 if thorough else 2)
     out += m_grow(rng)
     out.append(m_control(rng))
     out.append(m_blockparam())
